@@ -100,6 +100,7 @@ func (f *DocumentTitleMatch) Process(doc *webdoc.TextDocument) bool {
 	}
 
 	changes := false
+	var compactTitles map[string]struct{}
 	for _, tb := range doc.TextBlocks {
 		text := tb.Text
 		text = strings.ReplaceAll(text, string('\u00a0'), " ")
@@ -114,9 +115,28 @@ func (f *DocumentTitleMatch) Process(doc *webdoc.TextDocument) bool {
 			continue
 		}
 
+		compactText := strings.ReplaceAll(text, " ", "")
 		text = rxDtmRemoveCharacters.ReplaceAllString(text, "")
 		text = strings.TrimSpace(text)
 		if _, exist := f.potentialTitles[text]; exist {
+			tb.AddLabels(label.Title)
+			changes = true
+			continue
+		}
+
+		// The text of a block has blanks around every link in it, which the title
+		// doesn't have: "<a>Go</a>, Rust and Zig" reads "go , rust and zig". So compare
+		// without any white space as well.
+		if compactTitles == nil {
+			compactTitles = make(map[string]struct{})
+			for title := range f.potentialTitles {
+				if compactTitle := strings.ReplaceAll(title, " ", ""); compactTitle != "" {
+					compactTitles[compactTitle] = struct{}{}
+				}
+			}
+		}
+
+		if _, exist := compactTitles[compactText]; exist && tb.NumWordsInAnchor > 0 {
 			tb.AddLabels(label.Title)
 			changes = true
 		}
